@@ -164,6 +164,7 @@ func (r *rewriter) rewriteFile(f *loader.File, printer FilePrinter) {
 	r.yieldFuncDecls = map[*ast.FuncDecl]bool{}
 	r.yieldFuncLits = map[*ast.FuncLit]bool{}
 	r.collectYieldFunc(pkg, f) // collect func with yield/yieldFrom call
+	r.assertYieldOnlyCalled(pkg, f)
 
 	// 2. edit file
 	log.Printf("visit file: %s\n", f.Filename)
@@ -295,6 +296,40 @@ func (r *rewriter) collectYieldFunc(pkg loader.Pkg, f *loader.File) {
 					r.yieldFuncLits[f] = true
 				}
 			}
+		}
+		return true
+	})
+}
+
+// Yield / YieldFrom are only meaningful as the callee of a call: as a function
+// value ('y := Yield[int]; y(1)') the call is not recognised as a yield and
+// would silently become a call of the no-op stub.
+func (r *rewriter) assertYieldOnlyCalled(pkg loader.Pkg, f *loader.File) {
+	info := f.Pkg.TypesInfo
+	callee := map[*ast.Ident]bool{}
+	ast.Inspect(f.File, func(n ast.Node) bool {
+		if call, ok := n.(*ast.CallExpr); ok {
+			fun := astutil.Unparen(call.Fun)
+			switch x := fun.(type) {
+			case *ast.IndexExpr:
+				fun = x.X
+			case *ast.IndexListExpr:
+				fun = x.X
+			}
+			switch x := fun.(type) {
+			case *ast.Ident:
+				callee[x] = true
+			case *ast.SelectorExpr:
+				callee[x.Sel] = true
+			}
+		}
+		return true
+	})
+	ast.Inspect(f.File, func(n ast.Node) bool {
+		if id, ok := n.(*ast.Ident); ok && !callee[id] {
+			obj := info.Uses[id]
+			isAPI := obj != nil && (obj == r.yieldFunc || obj == r.yieldFromFunc)
+			r.assert(pkg, !isAPI, id, "%s used as a value, it can only be called", id.Name)
 		}
 		return true
 	})
